@@ -78,25 +78,27 @@ Theorem C43_rename_moves_exactly_one : forall t u c c', step (RenameTable t u) c
 Proof. exact rename_table_moves_one. Qed.
 Print Assumptions C43_rename_moves_exactly_one.
 
-(* a rejected statement leaves the catalog (hence every listing) as it was -- except the four statements of
-   [no_leak]; the faithful model refutes the unguarded claim *)
-Theorem C43_rejected_statement_no_effect_partial : forall o c,
+(* Model facts about DDL atomicity.  They are NOT part of C43 (the listings agree with whatever the catalog holds);
+   they record where the code -- and therefore the model -- lets a rejected statement change the catalog, which is
+   where the driver cuts a history for the implementation-side predicate.  A rejected statement leaves the catalog
+   as it was, except the four statements of [no_leak]: *)
+Theorem C43_model_rejected_statement_no_effect_partial : forall o c,
   no_leak o c = true -> fst (step o c) = false -> snd (step o c) = c.
 Proof. exact rejected_statement_no_effect. Qed.
-Print Assumptions C43_rejected_statement_no_effect_partial.
-(* _partial: excluded are CREATE TABLE over a view's name, RENAME TABLE to an existing name, ADD FOREIGN KEY and
+Print Assumptions C43_model_rejected_statement_no_effect_partial.
+(* _partial (of the model fact, not of C43): excluded are CREATE TABLE over a view's name, RENAME TABLE to an existing name, ADD FOREIGN KEY and
    DROP COLUMN, which the code (and therefore the model) lets change the catalog although they fail. *)
 
-Theorem C43_rejected_statement_no_effect_refuted :
+Theorem C43_model_note_rejected_create_changes_catalog :
   exists o c, fst (step o c) = false /\ tables (snd (step o c)) <> tables c.
 Proof. exact rejected_create_has_effect. Qed.
-Print Assumptions C43_rejected_statement_no_effect_refuted.
+Print Assumptions C43_model_note_rejected_create_changes_catalog.
 
-Theorem C43_rejected_rename_rewrites_foreign_keys_refuted :
+Theorem C43_model_note_rejected_rename_rewrites_foreign_keys :
   fst (step (RenameTable 1 3) (run (removelast h_fk) empty)) = false /\
   map fparent (fks (run (removelast h_fk) empty)) = [1] /\ map fparent (fks (run h_fk empty)) = [3].
 Proof. exact rejected_rename_rewrites_fk. Qed.
-Print Assumptions C43_rejected_rename_rewrites_foreign_keys_refuted.
+Print Assumptions C43_model_note_rejected_rename_rewrites_foreign_keys.
 
 (* VIEWS lists a subset of the views, all of them while every definition still resolves; a view whose base column was
    renamed exists (TABLES lists it) but is not listed in VIEWS *)
